@@ -351,7 +351,16 @@ fn run_case(out: &mut Out, case: &Value) {
                             }
                         }
                         "drop" => {
-                            drop(w.take());
+                            if n == 1 {
+                                // the writer goes away while its thread is unwinding from a panic
+                                let ww = w.take();
+                                let _ = std::panic::catch_unwind(std::panic::AssertUnwindSafe(move || {
+                                    let _held = ww;
+                                    panic!("producer panics with the writer alive");
+                                }));
+                            } else {
+                                drop(w.take());
+                            }
                         }
                         "wait" => {
                             let _ = p_tx.send(PMsg::Yield("wait".to_string()));
